@@ -1,22 +1,16 @@
-"""Scheduler group: nothing is regenerated (the model is hand written and tied by correspondence);
-the fingerprints of the mirrored Python definitions escalate the correspondence budget when
-they change."""
+"""C02: the scheduler model is hand written and tied by correspondence (see gen_c01); the world model
+Model/Reprocess.lean mirrors, in addition, the worker side of one execution.  The fingerprints of the
+mirrored Python definitions escalate the correspondence budget when they change."""
+from .gen_c01 import MIRRORED as _SCHED
+
 GENERATORS = []
 
-MIRRORED = [
-    ('pl/schedule.py', 'organize'),
-    ('pl/schedule.py', 'next_job_batch'),
-    ('pl/schedule.py', 'complete'),
-    ('pl/schedule.py', 'purge'),
-    ('pl/schedule.py', '_purge'),
-    ('pl/schedule.py', '_prune'),
-    ('pl/schedule.py', 'update'),
-    ('pl/schedule.py', 'defer'),
-    ('pl/schedule.py', 'find'),
-    ('pl/schedule.py', 'view_todo'),
-    ('pl/schedule.py', 'view_doing'),
-    ('pl/farm.py', 'dispatch'),
-    ('pl/farm.py', 'rerunid'),
-    ('pl/farm.py', '_put'),
-    ('pl/farm.py', 'Hand._res'),
+MIRRORED = list(_SCHED) + [
+    ('pl/worker/__init__.py', 'Context.run'),
+    ('base.py', 'Task.do'),
+    ('base.py', 'Task.new_values'),
+    ('db/shelve/model.py', 'Interface._load'),
+    ('db/shelve/model.py', 'Interface._update'),
+    ('db/shelve/__init__.py', 'next'),
+    ('db/util/__init__.py', 'move'),
 ]
